@@ -1017,23 +1017,26 @@ impl<'a> LL1Validator {
             }
             Regex::Concat(concat) => {
                 let mut use_next = true;
+                // collected locally: the set of this node must never lose its
+                // epsilon while the operands (which may refer back to it) are visited
+                let mut first = BTreeSet::new();
                 for op in concat.operands(cst) {
                     Self::calc_first_regex(cst, sema, op, change);
                     // only add next first set if there was an epsilon
                     if use_next {
                         let op_first = sema.first_sets[&op.syntax()].clone();
                         use_next = op_first.contains(&TokenName::EPSILON);
-                        let first = sema.first_sets.get_mut(&regex.syntax()).unwrap();
                         first.extend(op_first);
                         first.remove(&TokenName::EPSILON);
                     }
                 }
                 if use_next {
-                    sema.first_sets
-                        .get_mut(&regex.syntax())
-                        .unwrap()
-                        .insert(TokenName::EPSILON);
+                    first.insert(TokenName::EPSILON);
                 }
+                sema.first_sets
+                    .get_mut(&regex.syntax())
+                    .unwrap()
+                    .extend(first);
             }
             Regex::OrderedChoice(choice) => {
                 for op in choice.operands(cst) {
